@@ -238,9 +238,9 @@ theorem hk_guard (s : Sys F) (now j : Nat) (l l' : FLink F) (hl : s.links[j]? = 
 
 /-- **`setCfg` / `crit` / `failNext` / `failBind` / `stamp`** (any event that is not an arm of the loop): nothing
 the guard sees — a verdict stamp rewrites `weak` / `loss_degraded` / `cc_backing_off` / `cc_target_bps` only. -/
-theorem cfg_guard (s : Sys F) (e : Ev) (he : isArm e = false) (j : Nat) (l l' : FLink F)
+theorem cfg_guard (s : Sys F) (e : Ev) (he : isArm e = false) (hnr : e.isReload = false) (j : Nat) (l l' : FLink F)
     (hl : s.links[j]? = some l) (hl' : (step s e).1.links[j]? = some l') : GKeep l l' := by
-  obtain ⟨x, hx, h⟩ := cfg_links s e he j l hl
+  obtain ⟨x, hx, h⟩ := cfg_links s e he hnr j l hl
   rw [hx] at hl'
   cases hl'
   rcases h with rfl | ⟨weak, ld, ccb, cct, rfl⟩ | ⟨T, rfl⟩
@@ -539,9 +539,11 @@ theorem client_guard (s : Sys F) (pkt : Sys.Bytes) (now j : Nat) (l l' : FLink F
 /-- **Any event other than a `client` datagram**: the guard's seven fields of every link are unchanged,
 or the link was torn down.  (One arm per constructor; the catch-all covers the configuration /
 fault-injection events.) -/
-theorem other_guard (s : Sys F) (e : Ev) (hne : ∀ now pkt, e ≠ .client now pkt) (j : Nat) (l l' : FLink F)
+theorem other_guard (s : Sys F) (e : Ev) (hne : ∀ now pkt, e ≠ .client now pkt) (hnr : e.isReload = false)
+    (j : Nat) (l l' : FLink F)
     (hl : s.links[j]? = some l) (hl' : (step s e).1.links[j]? = some l') : GSame l l' ∨ Torn l l' := by
   cases e with
+  | reload now addrs outs => cases hnr
   | client now pkt => exact absurd rfl (hne now pkt)
   | uplink now cid data =>
     cases uplink_guard s cid data now j l l' hl hl' with
@@ -552,6 +554,6 @@ theorem other_guard (s : Sys F) (e : Ev) (hne : ∀ now pkt, e ≠ .client now p
     | torn h => exact .inr h
   | flush now => exact .inl (flush_guard s now j l l' hl hl').same
   | hk now => exact (hk_guard s now j l l' hl hl').elim (fun h => .inl h.same) .inr
-  | _ => exact .inl (cfg_guard s _ rfl j l l' hl hl').same
+  | _ => exact .inl (cfg_guard s _ rfl rfl j l l' hl hl').same
 
 end Srtla.SelShell
